@@ -849,6 +849,222 @@ async fn run_scenario(certs: &Certs, scn: &Value) -> Result<Vec<Value>, String> 
     Ok(log)
 }
 
+
+// ------------------------------------------------------------------------------------------------ end to end over Quinn
+/// C01 over the real transport: a real h3 client and a real h3 server joined by Quinn over loopback (through the h3-quinn
+/// adapter on both sides), with flow-control windows from tiny to default.  The events have the vocabulary of the
+/// simulator's pair mode (`ret` events of task "r1" = client, "h0" = server), so C01_Trace judges them unchanged.
+mod e2e {
+    use super::*;
+    use crate::proj;
+    use crate::sim::{build_request, fields_to_map, pat as spat};
+
+    fn data_ev(off: &mut u64, d: &[u8]) -> Value {
+        let o = *off;
+        *off += d.len() as u64;
+        let okk = d.iter().enumerate().all(|(i, b)| *b == spat(o + i as u64));
+        json!({"k": "data", "off": o, "len": d.len(), "pat_ok": okk})
+    }
+    fn body(off: &mut u64, n: usize) -> Bytes {
+        let o = *off;
+        *off += n as u64;
+        Bytes::from((0..n).map(|i| spat(o + i as u64)).collect::<Vec<u8>>())
+    }
+    fn ret(log: &Arc<std::sync::Mutex<Vec<Value>>>, task: &str, api: &str, res: Value) {
+        log.lock().unwrap().push(json!({"ev": "ret", "task": task, "api": api, "res": res}));
+    }
+    fn okv() -> Value {
+        json!({"k": "ok"})
+    }
+
+    pub async fn run_scenario(certs: &Certs, scn: &Value) -> Result<Vec<Value>, String> {
+        let win = &scn["win"];
+        let ws = win["stream"].as_u64().unwrap_or(0);
+        let wc = win["conn"].as_u64().unwrap_or(0);
+        // both directions get the same (possibly tiny) windows
+        let (c, s, cep, sep) = connect(certs, transport(ws, wc, 0, 0), transport(ws, wc, 0, 0)).await?;
+        let log: Arc<std::sync::Mutex<Vec<Value>>> = Arc::new(std::sync::Mutex::new(vec![]));
+        let mut meta = serde_json::Map::new();
+        if let Some(o) = scn.as_object() {
+            for (k, v) in o.iter() {
+                if !["id", "win"].contains(&k.as_str()) {
+                    meta.insert(k.clone(), v.clone());
+                }
+            }
+        }
+        log.lock().unwrap().push(json!({"ev": "reset", "scn": scn["id"], "role": "pair", "cfg": {}, "meta": meta, "wt": false}));
+        let req = scn["req"].clone();
+        let resp = scn["resp"].clone();
+
+        // ---- server
+        let slog = log.clone();
+        let sresp = resp.clone();
+        let server = tokio::spawn(async move {
+            let mut conn: h3::server::Connection<h3_quinn::Connection, Bytes> = match h3::server::builder().build(h3_quinn::Connection::new(s)).await {
+                Ok(c) => c,
+                Err(e) => {
+                    ret(&slog, "srv", "build", proj::conn_err(&e));
+                    return;
+                }
+            };
+            let resolver = match conn.accept().await {
+                Ok(Some(r)) => r,
+                Ok(None) => return,
+                Err(e) => {
+                    ret(&slog, "srv", "accept", proj::conn_err(&e));
+                    return;
+                }
+            };
+            // the connection keeps being driven while the request is handled
+            let hlog = slog.clone();
+            let handler = tokio::spawn(async move {
+                let (rq, mut st) = match resolver.resolve_request().await {
+                    Ok(x) => x,
+                    Err(e) => {
+                        ret(&hlog, "h0", "resolve_request", proj::stream_err(&e));
+                        return;
+                    }
+                };
+                ret(&hlog, "h0", "resolve_request", proj::request(&rq));
+                let mut off = 0u64;
+                loop {
+                    match st.recv_data().await {
+                        Ok(Some(mut d)) => {
+                            let b = d.copy_to_bytes(d.remaining());
+                            ret(&hlog, "h0", "recv_data", data_ev(&mut off, &b));
+                        }
+                        Ok(None) => {
+                            ret(&hlog, "h0", "recv_data", json!({"k": "none"}));
+                            break;
+                        }
+                        Err(e) => {
+                            ret(&hlog, "h0", "recv_data", proj::stream_err(&e));
+                            return;
+                        }
+                    }
+                }
+                match st.recv_trailers().await {
+                    Ok(Some(t)) => ret(&hlog, "h0", "recv_trailers", json!({"k": "trailers", "fields": proj::header_map(&t)})),
+                    Ok(None) => ret(&hlog, "h0", "recv_trailers", json!({"k": "none"})),
+                    Err(e) => ret(&hlog, "h0", "recv_trailers", proj::stream_err(&e)),
+                }
+                let mut b = http::Response::builder().status(sresp["status"].as_u64().unwrap_or(200) as u16);
+                for (n, v) in fields_to_map(&sresp["fields"]).iter() {
+                    b = b.header(n, v);
+                }
+                let r = st.send_response(b.body(()).expect("response")).await;
+                ret(&hlog, "h0", "send_response", r.map(|_| okv()).unwrap_or_else(|e| proj::stream_err(&e)));
+                let mut soff = 0u64;
+                for n in sresp["body"].as_array().cloned().unwrap_or_default() {
+                    let r = st.send_data(body(&mut soff, n.as_u64().unwrap_or(0) as usize)).await;
+                    ret(&hlog, "h0", "send_data", r.map(|_| okv()).unwrap_or_else(|e| proj::stream_err(&e)));
+                }
+                if sresp["has_trailers"] == true {
+                    let r = st.send_trailers(fields_to_map(&sresp["trailers"])).await;
+                    ret(&hlog, "h0", "send_trailers", r.map(|_| okv()).unwrap_or_else(|e| proj::stream_err(&e)));
+                }
+                let r = st.finish().await;
+                ret(&hlog, "h0", "finish", r.map(|_| okv()).unwrap_or_else(|e| proj::stream_err(&e)));
+            });
+            // drive until the client goes away
+            loop {
+                match conn.accept().await {
+                    Ok(Some(_)) => {}
+                    Ok(None) => break,
+                    Err(_) => break,
+                }
+            }
+            let _ = handler.await;
+        });
+
+        // ---- client
+        let clog = log.clone();
+        let client = tokio::spawn(async move {
+            let (mut driver, mut sender) = match h3::client::builder().build::<_, _, Bytes>(h3_quinn::Connection::new(c)).await {
+                Ok(x) => x,
+                Err(e) => {
+                    ret(&clog, "cli", "build", proj::conn_err(&e));
+                    return;
+                }
+            };
+            let drive = tokio::spawn(async move {
+                let _ = std::future::poll_fn(|cx| driver.poll_close(cx)).await;
+            });
+            let rq = match build_request(&req) {
+                Ok(r) => r,
+                Err(_) => return,
+            };
+            let mut st = match sender.send_request(rq).await {
+                Ok(s) => {
+                    ret(&clog, "r1", "send_request", okv());
+                    s
+                }
+                Err(e) => {
+                    ret(&clog, "r1", "send_request", proj::stream_err(&e));
+                    return;
+                }
+            };
+            let mut soff = 0u64;
+            for n in req["body"].as_array().cloned().unwrap_or_default() {
+                let r = st.send_data(body(&mut soff, n.as_u64().unwrap_or(0) as usize)).await;
+                ret(&clog, "r1", "send_data", r.map(|_| okv()).unwrap_or_else(|e| proj::stream_err(&e)));
+            }
+            if req["has_trailers"] == true {
+                let r = st.send_trailers(fields_to_map(&req["trailers"])).await;
+                ret(&clog, "r1", "send_trailers", r.map(|_| okv()).unwrap_or_else(|e| proj::stream_err(&e)));
+            }
+            let r = st.finish().await;
+            ret(&clog, "r1", "finish", r.map(|_| okv()).unwrap_or_else(|e| proj::stream_err(&e)));
+            match st.recv_response().await {
+                Ok(rp) => ret(&clog, "r1", "recv_response", proj::response(&rp)),
+                Err(e) => {
+                    ret(&clog, "r1", "recv_response", proj::stream_err(&e));
+                    return;
+                }
+            }
+            let mut off = 0u64;
+            loop {
+                match st.recv_data().await {
+                    Ok(Some(mut d)) => {
+                        let b = d.copy_to_bytes(d.remaining());
+                        ret(&clog, "r1", "recv_data", data_ev(&mut off, &b));
+                    }
+                    Ok(None) => {
+                        ret(&clog, "r1", "recv_data", json!({"k": "none"}));
+                        break;
+                    }
+                    Err(e) => {
+                        ret(&clog, "r1", "recv_data", proj::stream_err(&e));
+                        return;
+                    }
+                }
+            }
+            match st.recv_trailers().await {
+                Ok(Some(t)) => ret(&clog, "r1", "recv_trailers", json!({"k": "trailers", "fields": proj::header_map(&t)})),
+                Ok(None) => ret(&clog, "r1", "recv_trailers", json!({"k": "none"})),
+                Err(e) => ret(&clog, "r1", "recv_trailers", proj::stream_err(&e)),
+            }
+            drop(st);
+            drop(sender);
+            let _ = drive.await;
+        });
+
+        let done = tokio::time::timeout(Duration::from_secs(20), async {
+            let _ = client.await;
+            let _ = server.await;
+        })
+        .await;
+        if done.is_err() {
+            log.lock().unwrap().push(json!({"ev": "livelock"}));
+        }
+        log.lock().unwrap().push(json!({"ev": "quiesce", "pending": [], "closes": [], "unread": []}));
+        cep.close(VarInt::from_u32(0), b"done");
+        sep.close(VarInt::from_u32(0), b"done");
+        let out = std::mem::take(&mut *log.lock().unwrap());
+        Ok(out)
+    }
+}
+
 pub fn run(inp: &str, out: &str) -> Result<(), String> {
     let r = BufReader::new(std::fs::File::open(inp).map_err(|e| format!("{inp}: {e}"))?);
     let mut w = BufWriter::new(std::fs::File::create(out).map_err(|e| format!("{out}: {e}"))?);
@@ -861,13 +1077,23 @@ pub fn run(inp: &str, out: &str) -> Result<(), String> {
         }
         let scn: Value = serde_json::from_str(&line).map_err(|e| format!("scenario: {e}"))?;
         // a panic inside the adapter (outside the calls that are guarded individually) is data, not a tool failure
-        let r = catch_unwind(AssertUnwindSafe(|| rt.block_on(run_scenario(&certs, &scn))));
+        let r = catch_unwind(AssertUnwindSafe(|| {
+            if scn["fam"] == "E2E" {
+                rt.block_on(e2e::run_scenario(&certs, &scn))
+            } else {
+                rt.block_on(run_scenario(&certs, &scn))
+            }
+        }));
         let log = match r {
             Ok(l) => l?,
             Err(e) => {
                 rt = tokio::runtime::Builder::new_current_thread().enable_all().build().map_err(|e| e.to_string())?;
                 vec![
-                    json!({"ev": "reset", "scn": scn["id"], "a_role": scn["a_role"].as_str().unwrap_or("client"), "win": {"stream": 0, "conn": 0, "send": 0}, "idle_ms": 0}),
+                    if scn["fam"] == "E2E" {
+                        json!({"ev": "reset", "scn": scn["id"], "role": "pair", "cfg": {}, "meta": {"req": scn["req"], "resp": scn["resp"]}, "wt": false})
+                    } else {
+                        json!({"ev": "reset", "scn": scn["id"], "a_role": scn["a_role"].as_str().unwrap_or("client"), "win": {"stream": 0, "conn": 0, "send": 0}, "idle_ms": 0})
+                    },
                     json!({"ev": "panic", "msg": panic_msg(e)}),
                     json!({"ev": "quiesce", "aborted": true}),
                 ]
